@@ -84,13 +84,9 @@ def coinDataText (cd : CoinData) : String :=
   s!"{hexOfBytes cd.covhash}:{cd.value}:{hexOfBytes cd.denom.toBytes}:{hexOfBytes cd.additionalData}"
 def stakeDocText (d : StakeDoc) : String := s!"{hexOfBytes d.pubkey}:{d.eStart}:{d.ePostEnd}:{d.symsStaked}"
 
-/-- insertion sort by a key with a strict order -/
+/-- sort by a key with a strict order on keys (merge sort: dumps of states with thousands of coins stay fast) -/
 def sortBy {α κ} (key : α → κ) (lt : κ → κ → Bool) (l : List α) : List α :=
-  l.foldl (fun acc x =>
-    let rec ins : List α → List α
-      | [] => [x]
-      | y :: ys => if lt (key x) (key y) then x :: y :: ys else y :: ins ys
-    ins acc) []
+  l.mergeSort (fun a b => !lt (key b) (key a))
 
 def coinKeyLt (a b : Bytes × Nat) : Bool :=
   if a.1 = b.1 then a.2 < b.2 else bytesLt a.1 b.1
